@@ -18,7 +18,9 @@ RULE = ("inputs = every repository fixture + generated documents of every format
         "(a) each input is extracted twice in one process and once in fresh interpreters started with PYTHONHASHSEED in {0, 1, 2, a seed derived from VERIF_SEED}, each going through the inputs in a different order (forward, reversed, rotated): the sha256 of "
         "json.dumps(to_json(), sort_keys=True) must agree everywhere, and the caller's buffer must be byte-identical afterwards. (b) observer histories: Hypothesis-drawn sequences of "
         "full_text / units (text, images, tables, metadata) / images (partial and full reads of get_bytes) / tables / metadata / to_json / serialize(no binary) / json.dumps calls on one "
-        "result; after every step each observer must return what its first call returned and to_json() must equal the initial snapshot. Non-trivial = result with >=2 collections of "
+        "result (incl. the observers with every boolean option flipped); after every step each observer must return what its first call returned AND what it returns on a result nobody has observed before, and to_json() must equal the initial snapshot. "
+        "(c) later calls: a result is serialised, then the same bytes and sibling documents are extracted under other paths and without a path; the first result must still serialise to the same JSON. "
+        "Inputs include ordered pairs that differ in an optional part (comments, content-type declarations, missing core.xml / meta.xml, missing timestamps) and documents whose picture part fails its CRC. Non-trivial = result with >=2 collections of "
         ">=2 elements or >=1 image; histories with >=3 distinct observers; distinct by input digest / history digest.")
 ASSUMPTIONS = ["hash seeds sampled, not exhausted", "extraction failures are compared by exception type only (their messages are C01's business)"]
 
